@@ -795,9 +795,13 @@ Proof.
     all: match goal with |- readym _ _ [if ?c then _ else _] => destruct c eqn:Einc end;
          [|match goal with |- readym _ _ [if ?c then _ else _] => destruct c eqn:Edec end].
     all: pend_setup Hm.
-    + left. split; [reflexivity|]. split; [do 3 eexists; reflexivity|]. right.
-      destruct (p_dir (get_position (w_eng w) (w_env w) vamm s s0)), s0; cbn in Einc |- *; try reflexivity; discriminate.
+    + left. split; [reflexivity|]. split; [do 3 eexists; reflexivity|].
+      destruct (s_is_zero (p_size (get_position (w_eng w) (w_env w) vamm s s0))) eqn:Ezr.
+      * left. rewrite s_is_zero_toZ in Ezr. apply Z.eqb_eq in Ezr. exact Ezr.
+      * right. cbn [orb] in Einc.
+        destruct (p_dir (get_position (w_eng w) (w_env w) vamm s s0)), s0; cbn in Einc |- *; try reflexivity; discriminate.
     + right. left. split; [reflexivity|]. split; [do 3 eexists; reflexivity|].
+      destruct (s_is_zero (p_size (get_position (w_eng w) (w_env w) vamm s s0))); [discriminate Einc|]. cbn [orb] in Einc.
       destruct (p_dir (get_position (w_eng w) (w_env w) vamm s s0)), s0; cbn in Einc |- *; try reflexivity; discriminate.
     + right. right. right. left. split; [left; reflexivity|]. eexists.
       rewrite dir_side_inv. reflexivity.
